@@ -549,6 +549,24 @@ func c03Targeted() []targetedCase {
 			}
 		}
 	}
+	// every registered type without fields in an ExtensionObject with a body of length zero (decodes to an empty
+	// value, which is not the same as no value)
+	for _, nt := range gen.LoadRegistry().ExtObjs {
+		if nt.Type.Kind() != reflect.Ptr || nt.Type.Elem().Kind() != reflect.Struct || nt.Type.Elem().NumField() != 0 {
+			continue
+		}
+		nid, err := ua.ParseNodeID(nt.ID)
+		if err != nil || nid.Namespace() != 0 || nid.IntID() == 0 || nid.IntID() > 0xffff {
+			continue
+		}
+		eo := []byte{0x01, 0x00, byte(nid.IntID()), byte(nid.IntID() >> 8), 0x01, 0, 0, 0, 0}
+		desc := fmt.Sprintf("extobj of fieldless type %s (%s) with an empty body", nt.ID, nt.Type.Elem().Name())
+		out = append(out, targetedCase{eoT, desc, eo})
+		b := []byte{0x98, 2, 0, 0, 0, 0x16}
+		b = append(b, eo...)
+		b = append(b, marker...)
+		out = append(out, targetedCase{varT, "variant[extobj,marker] " + desc, b})
+	}
 	// Variant masks: dims bit without array bit, null type with flags
 	for typ := 0; typ < 26; typ++ {
 		for _, fl := range []byte{0x40, 0x80, 0xc0} {
